@@ -260,7 +260,7 @@ def program(fam, name, ch, cname, force_std_oracle=False, witness=None):
         must_reach!(la == %d && lb == 3 && ln == 2 && hi > lo && hi - lo == 3, "full-size inputs");
         must_reach!(la == 0 || ln == 0 || lo >= hi, "an empty source");
     }
-    tiers! { %s: unwind(12, 12), check(), check(),
+    tiers1! { %s: unwind(12, 12), check(), check(),
         calls("konst::iter::%s!(%s)"),
         bounds("slices <=4 (nested <=2x2), ranges <=4 items, take/skip/nth arguments 0..=5, every closure of the mask/xor families; oracle: %s", "same")%s }
 """ % (3 if ("flat_map" in ch.names or "flatten" in ch.names) else 4, cmp, 3 if ("flat_map" in ch.names or "flatten" in ch.names) else 4, name, "for_each" if cname == "for_each" else "eval", (", ".join(ch.names) + ", " + cname).replace('"', "'"), oracle,
